@@ -1385,8 +1385,13 @@ def gen_templates(rng, T, nts):
     r = rng.random()
     if r < 0.35:
         for e in g:
-            if rng.random() < 0.6:
+            if rng.random() < 0.3:
                 e[1].append([rng.choice(tkeys)] + [rng.choice(T)] * rng.randint(0, 1))
+        gd = dict((k, v) for k, v in g)
+        for k, td in tdefs:              # a symbol the container is made of (member, item, key, value, delimiter ...)
+            inner = [a for a in td["args"] if a in gd]
+            if inner and rng.random() < 0.7:
+                gd[rng.choice(inner)].append([k] + [rng.choice(T)] * rng.randint(0, 1))
     elif r < 0.7:
         tk = rng.choice(tkeys)
         top = [[tk, start], []] if rng.random() < 0.6 else [[rng.choice(plain), tk, start], [rng.choice(T)]]
@@ -1517,7 +1522,8 @@ def gen_ll_cases(rng, n_grammars, maxlen, extra_long=0, rec_maxlen=2, malformed_
             if rng.random() < 0.4:
                 s3, _, _ = gen_spec(rng, 0.0, 0.0, 0.2, 0.0, 0.0, 0.0)
                 s3 = dict(spec, prods=s3["prods"], start=s3["start"])
-                if clean(s3) and not left_rec(user_grammar(s3)):
+                has_ax = any(isinstance(a, dict) for _, al in s3["prods"] if isinstance(al, list) for a in al)
+                if not has_ax and clean(s3) and not left_rec(user_grammar(s3)):   # (its AnyTokenExcept lists name other tokens)
                     specs.append(s3)
             rng.shuffle(specs)
             few = texts[:13] + texts[40:][:25]
